@@ -3,7 +3,7 @@ from vf.schemas import Schema
 
 ASSUMPTIONS = [
     "CrossHair 0.0.110 model of Python and z3 5.1.0",
-    "hierarchy Base <- A, B; A <- C with unique tags; a fresh hierarchy is built per path untraced from realised selectors "
+    "hierarchy Base <- A, B; A <- C with unique tags 'a', 0 and '' (falsy tags are tags too); a fresh hierarchy is built per path untraced from realised selectors "
     "(classes cannot be symbolic); solver variables: the event history (<= 3 events quick, 4 thorough, from {define next class, "
     "decode tag in {a, b, c, unknown, absent}, create decoder}), the cached-registry subset, the tag, the payload of the last decode "
     "(traced)",
